@@ -418,3 +418,32 @@ def gen_engineered_lookahead_case(rng):
     elif r < 0.6:
         inp = inp + inp
     return [{'name': 'M0', 'patterns': pats, 'transitions': []}], inp
+
+
+def gen_gap_lookahead_case(rng):
+    """A positive lookahead whose accepted prefix lengths have GAPS on the text (b, bcd, bcdcd, ..; or x | x(yz)+): the
+    LONGEST lookahead match counts. Competing candidates have extents between the first and the longest lookahead match
+    and equal to the longest (ties by listing order); token types are shuffled against the listing order."""
+    a, b, c, d = rng.choice([('a', 'b', 'c', 'd'), ('k', '\u00e9', 'c', '\u20ac'), ('a', 'b', '\U0001F600', 'd')])
+    r = rng.randint(1, 3)
+    shape = rng.random()
+    if shape < 0.5:
+        la = '%s(%s%s)*' % (b, c, d)
+    elif shape < 0.8:
+        la = '%s|%s(%s%s)+' % (b, b, c, d)
+    else:
+        la = '%s(%s%s|%s%s%s%s)?' % (b, c, d, c, d, c, d)
+    pats = [{'p': a, 'la': {'pos': True, 'p': la}}]
+    for j in sorted(set([rng.randint(0, r), r, rng.randint(0, r)])):
+        q = {'p': a + b + (c + d) * j}
+        if rng.random() < 0.2:
+            q['la'] = {'pos': False, 'p': 'Z'}
+        pats.append(q)
+    pats.append({'p': '[%s%s%sX]' % (b, c, d)})
+    rng.shuffle(pats)
+    for p_, t in zip(pats, rng.sample(range(0, 12), len(pats))):
+        p_['t'] = t
+    inp = a + b + (c + d) * r + rng.choice(['X', '', a])
+    if rng.random() < 0.3:
+        inp = inp + inp
+    return [{'name': 'M0', 'patterns': pats, 'transitions': []}], inp
